@@ -75,6 +75,13 @@ func exprD(v ssa.Value, d int, seen map[ssa.Value]bool) string {
 		case token.MUL:
 			switch a := x.X.(type) {
 			case *ssa.FieldAddr:
+				// a field of a local value struct that is written once (`s := span{stored, expire}`; the results of an
+				// expanded helper): render what was stored
+				if _, isAlloc := a.X.(*ssa.Alloc); isAlloc && strings.Contains(a.X.Name(), "") {
+					if w, ok := localFieldStore(a, x); ok && d < 12 {
+						return exprD(w, d+1, seen)
+					}
+				}
 				return addrPath(a, d, seen)
 			case *ssa.Alloc:
 				if a.Comment != "" && a.Comment != "complit" {
